@@ -48,9 +48,9 @@ pub fn run(tier: Tier) -> i32 {
     let mut progs = programs(ctx.seed);
     if tier == Tier::Thorough {
         let al = super::c01::automaton_alphabet(ctx.seed);
-        for i in 0..crate::explore::count_upto(al.len(), 2) {
+        for i in 0..crate::explore::count_upto(al.len(), 3) {
             let mut p: Vec<Sym> = vec![Sym::L(0x31), Sym::L(0x32), Sym::L(0x33), Sym::L(0x34)];
-            p.extend(crate::explore::nth_seq(al.len(), 2, i).iter().map(|&k| al[k]));
+            p.extend(crate::explore::nth_seq(al.len(), 3, i).iter().map(|&k| al[k]));
             progs.push(p);
         }
     }
@@ -103,7 +103,7 @@ pub fn run(tier: Tier) -> i32 {
         }
     }
     let t0 = Instant::now();
-    let settings: Vec<(u32, u32, u32)> = tier.pick(vec![(3u32, 0u32, 2u32), (0, 0, 0), (2, 1, 3)], vec![(3, 0, 2), (0, 0, 0), (2, 1, 3), (0, 4, 4), (8, 0, 0), (4, 4, 0), (1, 0, 1)]);
+    let settings: Vec<(u32, u32, u32)> = tier.pick(vec![(3u32, 0u32, 2u32), (0, 0, 0), (2, 1, 3)], vec![(3, 0, 2), (0, 0, 0), (2, 1, 3), (0, 4, 4), (8, 0, 0), (4, 4, 0), (1, 0, 1), (0, 0, 4), (0, 4, 0), (4, 0, 4), (1, 2, 3), (2, 2, 1)]);
     par_for((cells.len() * settings.len()) as u64, |ix| {
         let (pi, marker, hfield, sopt, trailing, runner) = cells[ix as usize % cells.len()];
         let (lc, lp, pb) = settings[ix as usize / cells.len()];
